@@ -171,7 +171,8 @@ class C06(Prop):
         "partial in scope, not in strength: the wiring theorem is for one loop variable, COMPLETED termination tokens, a "
         "body and forwarders emitting one token per token with the same tag, instances of equal tag depth. k > 1 loop "
         "variables (the combinator's dot-product join over k ports and per-port checklists, the terminator's join over the "
-        "outputs) are NOT modelled; they are exercised only by whole-loop runs with two back-propagated variables. The "
+        "outputs) are NOT modelled at network level; the k-port LoopCombinatorStep alone is (Loop/CombK.v, C06_combinator_k_*: "
+        "it returns only when every port terminated with an empty checklist), and k = 2 whole-loop runs exercise the rest. The "
         "forwarders, the body and LoopTerminationCombinator are modelled from reading the code and exercised only by "
         "whole-loop runs. Trusted: Coq kernel + vm_compute; hand-written Loop/Model.v and Loop/Net.v; sorted() modelled as "
         "stable insertion sort; JS evaluation, body execution and asyncio are exercised, not modelled.")
@@ -182,7 +183,8 @@ class C06(Prop):
             "before completion, duplicated or missing iteration-termination tokens, single-component tags, several "
             "statuses (model fidelity only); retag: real LoopCombinator fed interleaved instances and iterations; cstep: real LoopCombinatorStep fed "
             "interleaved instance / looped-back / iteration-termination tokens with the termination token early or late, "
-            "well-formed or with junk; when: real CWLLoopConditionalStep with a JS condition, output vs skip port; wf: CWL "
+            "well-formed or with junk; when: real CWLLoopConditionalStep with a JS condition, output vs skip port; ckstep: real LoopCombinatorStep with 2 or 3 "
+            "input ports (k loop variables) fed interleaved per-port sequences; wf: CWL "
             "workflows (loop inside scatter or plain loop, ExpressionTool body, one or two back-propagated loop variables) run by the real engine. Non-trivial = a "
             "count >= 10 or 0, or >= 2 instances, or a non-identity order; every wf case. Distinct = distinct canonical JSON.")
     TRUSTED = ("models: Loop/Model.v (LoopOutputStep.run, CWLLoopOutputAllStep/LastStep._process_output, "
@@ -227,8 +229,10 @@ class C06(Prop):
                 cases.append(self._raw(rng))
             elif r < 0.9:
                 cases.append(self._retag(rng))
-            else:
+            elif r < 0.95:
                 cases.append(self._cstep(rng))
+            else:
+                cases.append(self._ckstep(rng))
         for _ in range({"quick": 8, "thorough": 40, "extended": 12}[tier]):
             k = rng.randrange(0, 6)
             cases.append({"f": "when", "lim": rng.choice([0, 2, 5]),
@@ -303,6 +307,37 @@ class C06(Prop):
                                    ["I", rng.choice(ps) + ".0"]])
                 arr.insert(rng.randrange(0, len(arr) + 1), junk)
         return {"f": "cstep", "arr": arr, "wf": wf, "insts": ps}
+
+    def _ckstep(self, rng):
+        """k loop variables: every port gets, per instance p, the token p, the looped-back tokens p.0 .. p.(c-1) and
+        IterationTermination(p); ports and instances interleaved at random; termination tokens per port; some junk"""
+        k = rng.choice([2, 2, 3])
+        depth = rng.choice([1, 2, 2])
+        ps = []
+        for _ in range(1 if depth == 1 else rng.randrange(1, 4)):
+            p = self._prefix(rng, depth)
+            if p not in ps:
+                ps.append(p)
+        counts = {p: rng.choice([0, 1, 2, 3]) for p in ps}
+        seqs = []
+        for i in range(k):
+            per_inst = [[["E", p]] + [["E", f"{p}.{j}"] for j in range(counts[p])] + [["I", p]] for p in ps]
+            port = []
+            while any(per_inst):
+                q = rng.choice([q for q in per_inst if q])
+                port.append(q.pop(0))
+            port.insert(rng.randrange(len(ps), len(port) + 1), ["T"])
+            if rng.random() < 0.25:
+                port.insert(rng.randrange(0, len(port) + 1), rng.choice([["I", self._prefix(rng, depth)], ["T"],
+                                                                       ["E", rng.choice(ps) + ".0"]]))
+            if rng.random() < 0.15:
+                port.pop(rng.randrange(0, len(port)))
+            seqs.append([[i] + a for a in port])
+        arr = []
+        while any(seqs):
+            q = rng.choice([q for q in seqs if q])
+            arr.append(q.pop(0))
+        return {"f": "ckstep", "k": k, "arr": arr}
 
     def _retag(self, rng):
         """tags carried by the tokens reaching the loop combinator: each instance p first, then p.0, p.1, ...
@@ -426,6 +461,99 @@ class C06(Prop):
         finally:
             await ctx.close()
 
+    async def _comb_k(self, c):
+        e, sd = self.e, self.sd
+        ctx = e.build_context()
+        try:
+            k = c["k"]
+            wf = e.Workflow(ctx, config={}, name="w")
+            ins = {f"x{i}": wf.create_port(e.ObsPort) for i in range(k)}
+            outs = {f"x{i}": wf.create_port() for i in range(k)}
+            comb = self.LoopCombinator(name="/s-loop-combinator", workflow=wf)
+            for n in ins:
+                comb.add_item(n)
+            st = wf.create_step(self.LoopCombinatorStep, name="/s-loop-combinator", combinator=comb)
+            for n in ins:
+                st.add_input_port(n, ins[n])
+                st.add_output_port(n, outs[n])
+            await wf.save(ctx.database)
+            feed = []
+            for i, kind, *rest in c["arr"]:
+                tok = e.Token(0, tag=rest[0]) if kind == "E" else e.IterationTerminationToken(rest[0]) if kind == "I" \
+                    else e.TerminationToken()
+                if kind == "E":
+                    await tok.save(ctx.database)
+                feed.append((f"x{i}", tok))
+            for port in ins.values():          # a port keeps being read after its termination token while its checklist is not empty
+                def keep_open(tok, port=port, orig=port.feed):
+                    orig(tok)
+                    port.terminated = False
+                port.feed = keep_open
+            fed = []
+            # structural quiescence with ports that are not re-armed: the step awaits only inside _persist_token while it
+            # processes a token; blocked with none in flight = back in asyncio.wait (or terminating)
+            inflight = [0]
+            orig_persist = st._persist_token
+
+            async def counted_persist(*a, **kw):
+                inflight[0] += 1
+                try:
+                    return await orig_persist(*a, **kw)
+                finally:
+                    inflight[0] -= 1
+            st._persist_token = counted_persist
+            try:
+                # a port the step no longer reads swallows nothing: stop feeding it (the model ignores it too)
+                finished = await self._drive_k(st, ins, feed, fed, inflight)
+                err = None
+            except Exception as ex:
+                finished, err = False, type(ex).__name__
+            o = {"outs": [self._canon(outs[f"x{i}"]) for i in range(k)], "fin": finished, "fed": fed}
+            if err:
+                o["err"] = err
+            return o
+        finally:
+            await ctx.close()
+
+    async def _drive_k(self, st, ins, feed, fed, inflight):
+        """like _stepdrive.drive, but a token for a port that is no longer being read is skipped"""
+        import asyncio
+
+        sd = self.sd
+        task = asyncio.ensure_future(st.run())
+        await sd.until(lambda: task.done() or (all(p.waiting == 1 for p in ins.values()) and sd._blocked(task)))
+        for idx, (pn, tok) in enumerate(feed):
+            if task.done():
+                break
+            p = ins[pn]
+            if p.waiting != 1:          # the step does not read this port any more
+                continue
+            w0 = task._fut_waiter
+            p.feed(tok)
+            cond = lambda: task.done() or (
+                w0.done() and p.delivered == p.nput and sd._blocked(task) and inflight[0] == 0)
+            await sd.until(cond)
+            # a reader the step re-armed with create_task starts at the next turn of the (FIFO) ready queue:
+            # let that turn pass before looking at port.waiting
+            await asyncio.sleep(0)
+            await asyncio.sleep(0)
+            await sd.until(cond)
+            fed.append(idx)
+        if not task.done() and not any(q.waiting == 1 for q in ins.values()):
+            await task                  # no port is read any more: run() is on its way out
+        if task.done():
+            task.result()
+            return True
+        task.cancel()
+        try:
+            await task
+        except asyncio.CancelledError:
+            pass
+        for t in asyncio.all_tasks():
+            if t is not asyncio.current_task() and not t.done():
+                t.cancel()
+        return False
+
     async def _when_step(self, c):
         e, sd = self.e, self.sd
         ctx = e.build_context()
@@ -543,6 +671,8 @@ class C06(Prop):
             return asyncio.run(self._comb_step(c["arr"]))
         if c["f"] == "when":
             return asyncio.run(self._when_step(c))
+        if c["f"] == "ckstep":
+            return asyncio.run(self._comb_k(c))
         arr = step_arrivals(c) if c["f"] == "step" else c["arr"]
         o = asyncio.run(self._loop_step(c["pol"], arr))
         o["arr"] = arr
@@ -597,6 +727,16 @@ class C06(Prop):
                                                      f"instance it had started was not finished")
                 if not o["fin"] and ["T"] in c["arr"] and all(p in ended for p in c["insts"]):
                     return ("combinator-terminates", f"loop combinator step still waiting after {c['arr']}")
+        if c["f"] == "ckstep":
+            if o.get("err"):
+                return ("step-raises", f"k-port loop combinator step raised {o['err']}")
+            fed = [c["arr"][i] for i in o["fed"]]
+            if o["fin"]:      # run() returned: every port must have terminated with an empty checklist
+                for i in range(c["k"]):
+                    mine = [a for a in fed if a[0] == i]
+                    if not any(a[1] == "T" for a in mine):
+                        return ("combinator-early-exit", f"k-port combinator step returned although port {i} had not "
+                                                         f"delivered its termination token: {fed}")
         if c["f"] == "when":
             if o.get("err") or not o.get("fin"):
                 return ("step-raises", f"loop-when step failed: {o}")
@@ -637,6 +777,15 @@ class C06(Prop):
             arr = c["arr"][:o["fed"]]
             return (f"CCombStep {coq_list([coq_atok(a) for a in arr])} {coq_list([coq_atok(a) for a in o['out']])} "
                     f"{'true' if o['fin'] else 'false'}")
+        if c["f"] == "ckstep":
+            if o.get("err") or not all(TAG.match(a[2]) for a in c["arr"] if a[1] != "T"):
+                return None
+            arr = [c["arr"][i] for i in o["fed"]]
+            def pa(a):
+                tokc = "ATerm" if a[1] == "T" else coq_atok([a[1], a[2]])
+                return f"({a[0]}%nat, {tokc})"
+            outs = coq_list([coq_list([coq_atok(x) for x in port]) for port in o["outs"]])
+            return f"CCombK {c['k']}%nat {coq_list([pa(a) for a in arr])} {outs} {'true' if o['fin'] else 'false'}"
         if c["f"] == "when":
             if o.get("err") or len({t for t, _ in c["toks"]}) != len(c["toks"]):
                 return None
@@ -661,7 +810,7 @@ class C06(Prop):
             return len(c["insts"]) >= 2 or c["order"] != 0 or any(i["k"] >= 10 or i["k"] == 0 for i in c["insts"])
         if c["f"] == "retag":
             return len(c["tags"]) >= 3
-        if c["f"] in ("raw", "cstep"):
+        if c["f"] in ("raw", "cstep", "ckstep"):
             return len(c["arr"]) >= 3
         return True
 
@@ -682,6 +831,9 @@ class C06(Prop):
                 yield {**c, "order": 1}
         elif c["f"] == "raw":
             for i in range(len(c["arr"])):
+                yield {**c, "arr": c["arr"][:i] + c["arr"][i + 1:]}
+        elif c["f"] == "ckstep":
+            for i in range(len(c["arr"]) - 1, -1, -1):
                 yield {**c, "arr": c["arr"][:i] + c["arr"][i + 1:]}
         elif c["f"] == "cstep":
             for i in range(len(c["arr"]) - 1, -1, -1):
